@@ -29,7 +29,12 @@ class _CQASMv1Creator(IRVisitor):
         return f"{i.value}"
 
     def visit_float(self, f: Float) -> str:
-        return f"{f.value:.{self.FLOAT_PRECISION}}"
+        text = f"{f.value:.{self.FLOAT_PRECISION}}"
+        mantissa, exponent_marker, exponent = text.partition("e")
+        if exponent_marker and "." not in mantissa:
+            # A cQASM float literal needs a decimal point, also in exponent notation.
+            return f"{mantissa}.0e{exponent}"
+        return text
 
     def visit_measure(self, measure: Measure) -> None:
         qubit_argument = measure.arguments[0].accept(self)  # type: ignore[index]
